@@ -20,16 +20,21 @@ denoted maps and of the SETS of groundings / facts / rows / proposals they are g
 * joins: membership in the rows of `foj` / `foldJoin` is determined by the membership predicates
   of the input rows (columns do not depend on the rows beyond emptiness);
 * grounding management: `groundings` maps `SEq` states to `SEq` states and returns the same set
-  of operator groundings.
+  of operator groundings;
+* complete node-level calls: upward inference over a connective (`fUpConn`) and first-order
+  negation in both directions (`fUpNot`, `fDownNot`) map `SEq` states to `SEq` states and report
+  the same amount of change.
 
 NOT covered by theorems:
 * the implementation's hash function, `PYTHONHASHSEED`, dict / set iteration order and pandas'
   row order themselves. These are not modelled; the tie between the implementation and this
   order-free reading is the correspondence run, executed under several `PYTHONHASHSEED` values and
   several fact orders against the model's output sorted by grounding;
-* a `SEq`-congruence for the complete upward/downward passes (`fUpConn`, `fDownConn`, negation,
-  quantifiers, `fInfer`): proved here are their order-sensitive ingredients listed above (row
-  creation, join, write-back merge), not the composition.
+* a `SEq`-congruence for the downward pass of a connective (`fDownConn`), for the quantifiers
+  and hence for `fInfer` as a whole: for `fDownConn` the order-sensitive ingredients are proved
+  (grounding management `C10_groundings_congr`, and the write-back `C10_writeMerged_perm`, which is
+  invariant under permutation of the proposals), not their composition; the quantifiers are not
+  treated here.
 -/
 import LnnVerif.Lemmas.Join
 import Mathlib.Algebra.Order.Field.Rat
@@ -247,6 +252,38 @@ theorem C10_groundings_congr (kb : FKB ι α) (i : ι) (down : Bool) {s s' : FSt
           (groundings kb i down s').2 = some (ogs', per') ∧ ∀ g, g ∈ ogs ↔ g ∈ ogs') :=
   groundings_congr kb i down h
 
+/-! ### complete node-level calls -/
+
+section Calls
+variable [Field α] [LinearOrder α] [IsStrictOrderedRing α]
+
+/-- UPWARD INFERENCE OVER A CONNECTIVE IS ORDER-FREE. On states that denote the same finite maps
+(tables filled in any order) `fUpConn` produces states that denote the same finite maps and reports
+the same amount. Covers both branches (union and join), the creation of rows, the contradiction
+filter, the activation and the aggregation; operator groundings may even be listed with different
+multiplicities. `hslots`: the variable maps only use the slots `0 … numVars-1`. -/
+theorem C10_fUpConn_congr (kb : FKB ι α) (i : ι) {s s' : FState ι α} (h : SEq s s')
+    (hslots : ∀ m ∈ (kb i).opmap, ∀ c ∈ m, c < numVars (kb i)) :
+    SEq (fUpConn kb i s).1 (fUpConn kb i s').1 ∧ (fUpConn kb i s).2 = (fUpConn kb i s').2 :=
+  fUpConn_congr kb i h hslots
+
+theorem C10_fUpNot_congr (kb : FKB ι α) (i : ι) {s s' : FState ι α} (h : SEq s s') :
+    SEq (fUpNot kb i s).1 (fUpNot kb i s').1 ∧ (fUpNot kb i s).2 = (fUpNot kb i s').2 :=
+  fUpNot_congr kb i h
+
+theorem C10_fDownNot_congr (kb : FKB ι α) (i : ι) {s s' : FState ι α} (h : SEq s s') :
+    SEq (fDownNot kb i s).1 (fDownNot kb i s').1 ∧ (fDownNot kb i s).2 = (fDownNot kb i s').2 :=
+  fDownNot_congr kb i h
+
+/-- The aggregation fold used by the upward passes: if every grounding always carries the same
+proposal, the result (table and amount, as values) depends only on the SET of proposals. -/
+theorem C10_aggregation_fold_set {l l' : List (Gr × Bounds α)}
+    (hfun : ∀ x ∈ l, ∀ y ∈ l, x.1 = y.1 → x = y) (hset : ∀ y, y ∈ l ↔ y ∈ l')
+    (z : Table α × α) : l.foldl stepA z = l'.foldl stepA z :=
+  foldl_stepA_set hfun hset z
+
+end Calls
+
 /-! ### examples: two insertion orders, one map -/
 
 def c10w : Bounds ℚ := ⟨0, 1⟩
@@ -289,5 +326,44 @@ example : (foj ⟨[0, 1], [[3, 4], [1, 2]]⟩ ⟨[1, 2], [[4, 6], [2, 5]]⟩).ro
       [[3, 6, 4], [3, 5, 4], [1, 6, 2], [1, 5, 2], [3, 5, 2], [1, 6, 4]] ∧
     (foj ⟨[0, 1], [[1, 2], [3, 4]]⟩ ⟨[1, 2], [[2, 5], [4, 6]]⟩).rows =
       [[1, 5, 2], [1, 6, 2], [3, 5, 4], [3, 6, 4], [1, 6, 4], [3, 5, 2]] := by decide
+
+/-- engine level: And(P(x,y), Q(y,z)) as node 2 over the predicates 0 and 1; the same facts
+stored in two different row orders -/
+def c10KB : FKB Nat ℚ := fun i =>
+  match i with
+  | 2 => { kind := .and, ops := [0, 1], ws := [1, 1], bias := 1, alpha := 1,
+           opmap := [[0, 1], [1, 2]], world := ⟨0, 1⟩ }
+  | _ => { kind := .pred, bias := 1, alpha := 1, world := ⟨0, 1⟩ }
+
+def c10S : FState Nat ℚ :=
+  ⟨[(0, [⟨[1, 2], ⟨1, 1⟩, ⟨1, 1⟩⟩, ⟨[3, 4], ⟨1/2, 1⟩, ⟨1/2, 1⟩⟩]),
+    (1, [⟨[2, 5], ⟨1, 1⟩, ⟨1, 1⟩⟩, ⟨[4, 6], ⟨0, 1/4⟩, ⟨0, 1/4⟩⟩])]⟩
+
+def c10S' : FState Nat ℚ :=
+  ⟨[(1, [⟨[4, 6], ⟨0, 1/4⟩, ⟨0, 1/4⟩⟩, ⟨[2, 5], ⟨1, 1⟩, ⟨1, 1⟩⟩]),
+    (0, [⟨[3, 4], ⟨1/2, 1⟩, ⟨1/2, 1⟩⟩, ⟨[1, 2], ⟨1, 1⟩, ⟨1, 1⟩⟩])]⟩
+
+theorem c10S_SEq : SEq c10S c10S' := by
+  intro j
+  by_cases h0 : j = 0
+  · subst h0
+    exact C10_perm_TEq (List.Perm.swap _ _ _) (by decide)
+  · by_cases h1 : j = 1
+    · subst h1
+      exact C10_perm_TEq (List.Perm.swap _ _ _) (by decide)
+    · have e : c10S.get j = [] := by
+        simp [FState.get, c10S, Ne.symm h0, Ne.symm h1]
+      have e' : c10S'.get j = [] := by
+        simp [FState.get, c10S', Ne.symm h0, Ne.symm h1]
+      rw [e, e']
+      exact TEq.refl _
+
+theorem c10KB_slots : ∀ m ∈ (c10KB 2).opmap, ∀ c ∈ m, c < numVars (c10KB 2) := by decide
+
+/-- the upward pass over the conjunction gives the same maps and the same amount from both
+row orders -/
+example : SEq (fUpConn c10KB 2 c10S).1 (fUpConn c10KB 2 c10S').1 ∧
+    (fUpConn c10KB 2 c10S).2 = (fUpConn c10KB 2 c10S').2 :=
+  C10_fUpConn_congr c10KB 2 c10S_SEq c10KB_slots
 
 end LNN
